@@ -216,8 +216,13 @@ def run_case(cx, pn, case, inputs, res, want_sample=False):
         viol(key, f"{pn} output does not verify: {msg.strip().splitlines()[-1][:200] if msg.strip() else type(e).__name__}")
         return
     compared = 0
+    implicit = frozenset()
+    if pn == "frontend-desymrefy":  # symbols used but never declared in the source module (outer-scope symbols)
+        decl = {o.properties["sym_name"].data for o in m0.walk() if o.name == "symref.declare"}
+        implicit = frozenset(o.properties["symbol"].root_reference.data for o in m0.walk()
+                             if o.name in ("symref.fetch", "symref.update")) - decl
     for row in inputs:
-        out0, ms = run16(m0, "main", row, SRC_STEPS)
+        out0, ms = run16(m0, "main", row, SRC_STEPS, implicit_syms=implicit)
         if out0[0] == "badir":
             raise RuntimeError("generator produced IR with a use before def: " + out0[1] + "\n" + text)
         if out0[0] != "ok":
@@ -226,7 +231,7 @@ def run_case(cx, pn, case, inputs, res, want_sample=False):
             if out0[0] == "unsup":
                 res["sets"].setdefault("unsupported", set()).add(out0[1][:60])
             continue
-        out1, mt = run16(m1, "main", row, 20 * ms.steps + 5000)
+        out1, mt = run16(m1, "main", row, 20 * ms.steps + 5000, implicit_syms=implicit)
         if out1[0] == "unsup":
             cnt("target_unsupported")
             res["sets"].setdefault("unsupported", set()).add("target:" + out1[1][:60])
